@@ -31,6 +31,8 @@ func (s Script) String() string {
 	parts := make([]string, 0, len(s))
 	for _, a := range s {
 		switch a.Kind {
+		case "stk", "ustk":
+			parts = append(parts, fmt.Sprintf("%s:%s", a.Kind, a.Val.String()))
 		case "c", "cc", "ac":
 			parts = append(parts, fmt.Sprintf("%s:%s:%s", a.Kind, hexAddr(a.To), a.Val.String()))
 		case "dc", "sc", "sd":
@@ -149,6 +151,17 @@ func assemble(s Script, inits map[int]Script, auth *authInfo, budget func(to com
 			body = append(body, 0xff)
 		case "ac":
 			body = append(body, auth.call(a.To, a.Val)...)
+		case "stk", "ustk":
+			// STAKE / UNSTAKE (pointer = ADDRESS, value)
+			body = append(body, 0x30)
+			body = append(body, push32(a.Val)...)
+			op := byte(0xee)
+			if a.Kind == "ustk" {
+				op = 0xef
+			}
+			body = append(body, op, 0x50)
+		case "usa":
+			body = append(body, 0x30, 0xeb, 0x50)
 		case "rv":
 			body = append(body, 0x60, 0, 0x60, 0, 0xfd)
 		case "iv":
